@@ -291,7 +291,9 @@ def ghz_structure(p):
         if kind == "signed":
             c = c * rng.choice([-1.0, 1.0], d)
         c = c / np.linalg.norm(c)
-        v = ghz(d, n, list(c) if kind != "array" else c)
+        # coefficients given with another overall scale (weights rather than amplitudes) are normalised by the constructor
+        sc = {"scaled-down": 0.4, "scaled-up": 3.0}.get(kind, 1.0)
+        v = ghz(d, n, list(c * sc) if kind != "array" else c)
     exp = np.zeros((d**n, 1))
     for i in range(d):
         exp[sum(i * d**k for k in range(n)), 0] = 0  # placeholder to make the index formula explicit below
@@ -1167,6 +1169,9 @@ def cases(tier, seed):
             if d**n <= 8000:
                 for kind in ("default", "positive", "signed", "array"):
                     add("ghz.structure", dict(d=d, n=n, coeff=kind, seed=useeds[0]), "ghz/%s-coefficients" % kind, d >= 2 and n >= 2)
+                if d >= 2 and n == 2:
+                    for kind2 in ("scaled-down", "scaled-up"):
+                        add("ghz.structure", dict(d=d, n=n, coeff=kind2, seed=useeds[0]), "ghz/%s-coefficients" % kind2, True)
     add("ghz.errors", {}, "ghz/errors")
     for n in range(2, 7):
         for kind in ("default", "random", "integers"):
